@@ -45,9 +45,22 @@ _VALID_TEXT_OUTPUT = attribute_util.string_from_list({"Emit", "Skip"})
 
 def _valid_back_ends(attr, module_source_file):
     """Checks that `attr` holds a valid list of back end specifiers."""
+    # A non-string value has no string_constant at all.
+    value = ir_data_utils.reader(attr).value.string_constant.text
+    if not attr.value.has_field("string_constant"):
+        return [
+            [
+                error.error(
+                    module_source_file,
+                    attr.value.source_location,
+                    "Attribute '{name}' must be a comma-delimited list of back end "
+                    'specifiers (like "cpp, proto")).'.format(name=attr.name.text),
+                )
+            ]
+        ]
     if not re.fullmatch(
         r"(?:\s*[a-z][a-z0-9_]*\s*(?:,\s*[a-z][a-z0-9_]*\s*)*,?)?\s*",
-        attr.value.string_constant.text,
+        value,
     ):
         return [
             [
@@ -56,7 +69,7 @@ def _valid_back_ends(attr, module_source_file):
                     attr.value.source_location,
                     "Attribute '{name}' must be a comma-delimited list of back end "
                     'specifiers (like "cpp, proto")), not "{value}".'.format(
-                        name=attr.name.text, value=attr.value.string_constant.text
+                        name=attr.name.text, value=value
                     ),
                 )
             ]
@@ -314,7 +327,8 @@ def _add_missing_back_ends_to_module(module):
 def _gather_expected_back_ends(module):
     """Captures the expected_back_ends attribute for `module`."""
     back_ends_attr = ir_util.get_attribute(module.attribute, attributes.BACK_ENDS)
-    back_ends_str = back_ends_attr.string_constant.text
+    # A non-string value (reported by _valid_back_ends) has no string_constant.
+    back_ends_str = ir_data_utils.reader(back_ends_attr).string_constant.text or ""
     return {"expected_back_ends": {x.strip() for x in back_ends_str.split(",")} | {""}}
 
 
